@@ -504,33 +504,35 @@ func checkC14(R *Run) {
 			}
 			return n
 		}
-		in := map[*ssa.BasicBlock]int{}
-		out := map[*ssa.BasicBlock]int{}
-		for changed, iter := true, 0; changed && iter < 200; iter++ {
-			changed = false
-			for _, b := range fn.Blocks {
-				m := 0
-				for _, p := range b.Preds {
-					if out[p] > m {
-						m = out[p]
-					}
-				}
-				o := m + count(b)
-				if o > 2 {
-					o = 2
-				}
-				if m != in[b] || o != out[b] {
-					in[b], out[b] = m, o
-					changed = true
-				}
-			}
-		}
+		// the largest number of reply constructions on a feasible path to a return (capped at 2), over
+		// (block, state, count) triples of the path-sensitive traversal
 		worst := 0
 		var where ssa.Instruction
-		for _, ret := range returnsOf(fn) {
-			if out[ret.Block()] > worst {
-				worst = out[ret.Block()]
-				where = ret
+		if len(fn.Blocks) > 0 {
+			type item struct {
+				it psItem
+				n  int
+			}
+			seen := map[string]bool{}
+			work := []item{{psItem{fn.Blocks[0], nilState{}}, 0}}
+			for len(work) > 0 && len(seen) < 40000 {
+				w := work[len(work)-1]
+				work = work[:len(work)-1]
+				k := fmt.Sprintf("%d|%d|%s", w.it.blk.Index, w.n, w.it.st.key())
+				if seen[k] {
+					continue
+				}
+				seen[k] = true
+				n := w.n + count(w.it.blk)
+				if n > 2 {
+					n = 2
+				}
+				if ret, isRet := w.it.blk.Instrs[len(w.it.blk.Instrs)-1].(*ssa.Return); isRet && n > worst {
+					worst, where = n, ret
+				}
+				for _, s := range feasibleSuccs(w.it.blk, w.it.st, false) {
+					work = append(work, item{psItem{s.blk, enterBlock(w.it.blk, s.blk, s.st)}, n})
+				}
 			}
 		}
 		pos := P.pos(fn.Pos())
@@ -1071,7 +1073,7 @@ func checkC18(R *Run) {
 		if ok {
 			// key = phi(1, last(sorted keys)+1)
 			key := upd.Key
-			hasOne, hasMaxPlus1 := false, false
+			hasOne, hasMaxPlus1, viaMax := false, false, false
 			var phi *ssa.Phi
 			if p, isPhi := key.(*ssa.Phi); isPhi {
 				phi = p
@@ -1082,7 +1084,7 @@ func checkC18(R *Run) {
 					}
 					if b, isB := stripConv(e).(*ssa.BinOp); isB && b.Op == token.ADD {
 						if k, isK := constInt(b.Y); isK && k == 1 {
-							// b.X derives from keys[len(keys)-1] after sort.Ints(keys)
+							// b.X derives from keys[len(keys)-1] after sort.Ints(keys), or is slices.Max(keys) / max over the keys
 							if P.reaches(b.X, func(x ssa.Value) bool {
 								ia, isIA := x.(*ssa.IndexAddr)
 								if !isIA {
@@ -1092,6 +1094,12 @@ func checkC18(R *Run) {
 								return isSub && sub.Op == token.SUB
 							}) {
 								hasMaxPlus1 = true
+							}
+							if P.reaches(b.X, func(x ssa.Value) bool {
+								c, isC := x.(*ssa.Call)
+								return isC && (calleeName(&c.Call) == "slices.Max" || calleeName(&c.Call) == "slices.MaxFunc")
+							}) {
+								hasMaxPlus1, viaMax = true, true
 							}
 						}
 					}
@@ -1103,7 +1111,7 @@ func checkC18(R *Run) {
 					sorted = true
 				}
 			}
-			ok = phi != nil && hasOne && hasMaxPlus1 && sorted
+			ok = phi != nil && hasOne && hasMaxPlus1 && (sorted || viaMax)
 			why = "the new article's ID is not 'largest existing ID + 1, or 1 for an empty category'"
 		}
 		if ok {
